@@ -144,3 +144,13 @@ Section KeySort.
       destruct (key a) as [a1 a2], (key b) as [b1 b2]. cbn [fst snd] in *. f_equal; lia.
   Qed.
 End KeySort.
+
+(** the sort is a permutation whatever the comparison *)
+Lemma fold_insert_perm {A} (cmp : A -> A -> comparison) : forall l acc,
+  Permutation (fold_left (fun acc x => insert_sorted cmp x acc) l acc) (l ++ acc).
+Proof.
+  induction l as [|x r IH]; intros acc; cbn [fold_left app]; [apply Permutation_refl|].
+  eapply Permutation_trans; [apply IH|]. eapply Permutation_trans; [apply Permutation_app_head; apply insert_perm|]. apply Permutation_sym. apply Permutation_middle.
+Qed.
+Lemma sort_by_perm_any {A} (cmp : A -> A -> comparison) l : Permutation (sort_by cmp l) l.
+Proof. unfold sort_by. pose proof (fold_insert_perm cmp l []) as P. rewrite app_nil_r in P. exact P. Qed.
